@@ -4,8 +4,8 @@
    are data (Arglist/Tables.v); everything here is parametric in them.
    No proofs in this file.
 
-   Behaviour modelled is that of the code WITH the three pending fixes
-   (pending/C13-*.diff): a bare prepend prefix ("-I", "-L" as a word of its own) is
+   Behaviour modelled is that of the code WITH the fixes proposed by this property
+   (pending/C13-*.diff; three are in /repo, C13-isystem-double-pop is pending): a bare prepend prefix ("-I", "-L" as a word of its own) is
    not prepended, __len__ and __eq__ flush before answering.  The pre-fix variants
    are kept (should_prepend_prefix_only, len_unflushed, eq_other_unflushed) for
    the `_refuted` witnesses in Arglist/Proofs.v. *)
@@ -286,7 +286,18 @@ Fixpoint bad_idx (real_dd : list str) (l : list str) (i : nat) : list nat :=
        else (if str_mem (realpath (drop 8 each)) real_dd then [i] else []))
       ++ bad_idx real_dd r (S i)
   end.
-(* clike.py:119-120 : for i in reversed(bad_idx_list): new.pop(i)
+(* sorted(set(bad_idx_list), reverse=True) (pending/C13-isystem-double-pop.diff; the code as
+   shipped iterates reversed(bad_idx_list), in which the operand of a bare -isystem can
+   occur twice) *)
+Fixpoint ins_desc (x : nat) (l : list nat) : list nat :=
+  match l with
+  | [] => [x]
+  | y :: t => if (y <? x)%nat then x :: l
+              else if (y =? x)%nat then l
+              else y :: ins_desc x t
+  end.
+Definition sorted_set_desc (l : list nat) : list nat := fold_right ins_desc [] l.
+(* clike.py:119-120 : for i in ...: new.pop(i)
    (MutableSequence.pop = self[i] then del self[i]; IndexError escapes) *)
 Fixpoint pop_all (l : list str) (idx_desc : list nat) : list str * bool :=
   match idx_desc with
@@ -295,6 +306,12 @@ Fixpoint pop_all (l : list str) (idx_desc : list nat) : list str * bool :=
   end.
 (* clike.py:102-120 *)
 Definition strip_default (ddirs : list str) (l : list str) : list str * bool :=
+  match ddirs with
+  | [] => (l, true)
+  | _ => pop_all l (sorted_set_desc (bad_idx (map realpath ddirs) l 0))
+  end.
+(* ... and as shipped in b8a063f *)
+Definition strip_default_shipped (ddirs : list str) (l : list str) : list str * bool :=
   match ddirs with
   | [] => (l, true)
   | _ => pop_all l (rev (bad_idx (map realpath ddirs) l 0))
